@@ -140,8 +140,8 @@ func (p *Program) generate(only string) []*Obligation {
 				// the generator's main ranges over a map: not under contract, observed by the bounded run only
 				continue
 			}
-			if f.fn.Object() != nil && !f.fn.Object().Exported() && f.fn.Signature.Recv() == nil && inlinable(f.fn) {
-				// an unexported loop-free helper: verified where it is called (inlined there)
+			if (f.fn.Object() == nil || !f.fn.Object().Exported()) && inlinable(f.fn) {
+				// an unexported helper or a function literal: verified where it is called (executed inline there)
 				pendingHelpers = append(pendingHelpers, n)
 				continue
 			}
@@ -344,20 +344,22 @@ func cmdVC(args []string) {
 	}
 }
 
+// inlinable: a function without contract that can be executed where it is
+// called: no go statement, no defer of its own, no direct recursion. Loops are
+// allowed; their clauses are guessed (infer.go).
 func inlinable(fn *ssa.Function) bool {
-	if fn.Blocks == nil || len(fn.FreeVars) > 0 {
+	if fn.Blocks == nil {
 		return false
 	}
 	for _, b := range fn.Blocks {
-		for _, s := range b.Succs {
-			if s.Dominates(b) {
-				return false
-			}
-		}
 		for _, in := range b.Instrs {
-			switch in.(type) {
+			switch v := in.(type) {
 			case *ssa.Defer, *ssa.Go:
 				return false
+			case *ssa.Call:
+				if f, ok := v.Call.Value.(*ssa.Function); ok && f == fn {
+					return false
+				}
 			}
 		}
 	}
